@@ -247,7 +247,8 @@ def build_harness():
             open(marker, "w").write(REPO)
         p = run(["ninja"], cwd=HB, timeout=1800)
         if p.returncode != 0:
-            # one retry from scratch (stale glob / moved files)
+            # one retry with the generated parts dropped (stale glob / new moc headers / moved files)
+            subprocess.run(["rm", "-rf", os.path.join(HB, "hx_autogen"), os.path.join(HB, "CMakeFiles", "hx_autogen.dir")])
             p2 = run(["cmake", "."], cwd=HB, timeout=600)
             p = run(["ninja"], cwd=HB, timeout=1800)
             if p.returncode != 0:
